@@ -1,6 +1,6 @@
 (** C09 - spline quadrature weights integrate the interpolant (get_quadrature_coefficients of
     spline_interpolators.py, BSplines._build_integrals of splines.py).
-    Only statements, [exact]s and [Print Assumptions]; proofs in InterpTheory.v, QuadTheory.v, GrevilleTheory.v, QuadSumTheory.v, CirculantTheory.v, CubicQuadTheory.v (model: InterpModel.v; seeds:
+    Only statements, [exact]s and [Print Assumptions]; proofs in InterpTheory.v, QuadTheory.v, GrevilleTheory.v, QuadSumTheory.v, CirculantTheory.v, CubicQuadTheory.v, UniformPeriodicTheory.v, UniformIntegralTheory.v (model: InterpModel.v; seeds:
     Sums.weights_dual, CoxDeBoorGen.basis_eq_delta) and InterpQc.v (Qc instance, witnesses).  Every theorem holds for every field with a
     compatible decidable total order, every degree and size.
 
@@ -13,11 +13,6 @@
     NOT proved here (see the evidence, "uncovered_clauses"):
     - that (t_{j+p+1} - t_j)/(p+1) IS the integral of B_j (classical identity, cited) - the harness integrates
       every basis function piecewise exactly, independently of the model;
-    - all weights equal dx on EVERY uniform periodic space: proved for the uniform-cubic path with the checked inverse as
-      only per-instance hypothesis ([c09_weights_equal_cubic]); for uniform periodic spaces of other degrees the certificate
-      form [c09_weights_equal_cert] remains (column sums follow from [c09_cols_sum_circulant] once the rows are known to be
-      shifted copies; the folded integrals are checked per instance).
-
     [c09_quadrature_periodic_nonuniform_ok] is the instance that failed on the pinned tree (defect 6, repaired by 38b0bf4);
     the general statement is [c09_weights_sum_general].
 
@@ -26,7 +21,7 @@
     ([c09_quadrature_periodic_nonuniform_ok], [c09_integrals_cubic_clamped_small_ok]). *)
 From Coq Require Import List Arith Lia ZArith Bool QArith Qcanon.
 Import ListNotations.
-From PGV Require Import BasisCoxDeBoor CoxDeBoorGen FindSpan CubicUniform CollocRow Sums SplineModel SplineTheory SplineQc InterpModel InterpTheory Interp2D QuadTheory GrevilleTheory QuadSumTheory CirculantTheory CubicQuadTheory InterpQc.
+From PGV Require Import BasisCoxDeBoor CoxDeBoorGen FindSpan CubicUniform CollocRow Sums SplineModel SplineTheory SplineQc InterpModel InterpTheory Interp2D QuadTheory GrevilleTheory QuadSumTheory CirculantTheory CubicQuadTheory MarsdenTheory EndValueTheory UniformPeriodicTheory UniformIntegralTheory InterpQc.
 
 (** the weights solve the TRANSPOSED collocation system C^T w = q, q = integrals (clamped) or the folded integrals (periodic) *)
 Theorem c09_quad_from_spec :
@@ -279,6 +274,158 @@ Theorem c09_weights_equal_cubic :
   ip_inverse_ok F K n A Ainv = true -> forall i : nat, (i < n)%nat -> nth i w (sp0 K) = dx.
 Proof. exact (@ip_weights_equal_cubic). Qed.
 Print Assumptions c09_weights_equal_cubic.
+
+(** Algorithm A2.2 depends on the knots and on x only through left[k] = x - t_{s-k} and right[k] = t_{s+1+k} - x, k < p (translation invariance) *)
+Theorem c09_A22_ext :
+  forall (F : Type) (K : sp_ops F) (knots knots' : list F) (p : nat) (x x' : F) (s s' : nat),
+  (forall i : nat,
+  (i < p)%nat ->
+  spsub K (sp_kn F K knots (s + 1 + i)) x = spsub K (sp_kn F K knots' (s' + 1 + i)) x' /\
+  spsub K x (sp_kn F K knots (s - i)) = spsub K x' (sp_kn F K knots' (s' - i))) ->
+  sp_A22 F K knots p x s = sp_A22 F K knots' p x' s'.
+Proof. exact (@ip_A22_ext). Qed.
+Print Assumptions c09_A22_ext.
+
+(** exactly uniform knots t_j = t_0 + j dx, points x_i = x_0 + i dx with x_0 in the first cell: the i-th point has span p + i and the basis values of the first point *)
+Theorem c09_unif_span_basis :
+  forall (F : Type) (K : sp_ops F),
+  sp_laws K ->
+  forall (knots : list F) (p : nat) (t0 dx x0 : F),
+  sp_lt K (sp0 K) dx ->
+  (2 * p + 1 < length knots)%nat ->
+  (forall j : nat,
+  (j < length knots)%nat -> sp_kn F K knots j = spadd K t0 (spmul K (sp_ofnat F K j) dx)) ->
+  sp_le K (sp_kn F K knots p) x0 /\ ~ sp_le K (sp_kn F K knots (S p)) x0 ->
+  forall i : nat,
+  (i < length knots - 2 * p - 1)%nat ->
+  sp_nu_find_span F K knots p (spadd K x0 (spmul K (sp_ofnat F K i) dx)) = SpOk (p + i)%nat /\
+  sp_A22 F K knots p (spadd K x0 (spmul K (sp_ofnat F K i) dx)) (p + i) = sp_A22 F K knots p x0 p.
+Proof. exact (@ip_unif_span_basis). Qed.
+Print Assumptions c09_unif_span_basis.
+
+(** hence the collocation matrix of a uniform periodic space of ANY degree (general path) is circulant and its columns sum to one *)
+Theorem c09_cols_sum_one_uniform :
+  forall (F : Type) (K : sp_ops F),
+  sp_laws K ->
+  forall (knots : list F) (p : nat) (t0 dx x0 : F),
+  sp_lt K (sp0 K) dx ->
+  (2 * p + 1 < length knots)%nat ->
+  (forall j : nat,
+  (j < length knots)%nat -> sp_kn F K knots j = spadd K t0 (spmul K (sp_ofnat F K j) dx)) ->
+  sp_le K (sp_kn F K knots p) x0 /\ ~ sp_le K (sp_kn F K knots (S p)) x0 ->
+  forall A : list (list F),
+  ip_colloc F K (length knots - 2 * p - 1) knots p true false
+  (map (fun i : nat => spadd K x0 (spmul K (sp_ofnat F K i) dx)) (seq 0 (length knots - 2 * p - 1))) =
+  SpOk A ->
+  forall k : nat,
+  (k < length knots - 2 * p - 1)%nat ->
+  ip_sum F K (length knots - 2 * p - 1) (fun i : nat => ip_mget F K A i k) = sp1 K.
+Proof. exact (@ip_cols_sum_one_uniform). Qed.
+Print Assumptions c09_cols_sum_one_uniform.
+
+(** uniform_periodic_equal, general path, any degree: every weight is dx as soon as the folded integrals are all dx and the collocation matrix has a checked inverse (the column hypothesis of c09_weights_equal_cert is discharged) *)
+Theorem c09_weights_equal_uniform :
+  forall (F : Type) (K : sp_ops F),
+  sp_laws K ->
+  forall (knots : list F) (p : nat) (t0 dx x0 : F),
+  sp_lt K (sp0 K) dx ->
+  (2 * p + 1 < length knots)%nat ->
+  (forall j : nat,
+  (j < length knots)%nat -> sp_kn F K knots j = spadd K t0 (spmul K (sp_ofnat F K j) dx)) ->
+  sp_le K (sp_kn F K knots p) x0 /\ ~ sp_le K (sp_kn F K knots (S p)) x0 ->
+  forall (Il w : list F) (A Ainv : list (list F)) (dx' : F),
+  ip_nbasis F K knots p true false = (length knots - 2 * p - 1)%nat ->
+  ip_quad_from F K knots p true false
+  (map (fun i : nat => spadd K x0 (spmul K (sp_ofnat F K i) dx)) (seq 0 (length knots - 2 * p - 1)))
+  Il = SpOk w ->
+  ip_colloc F K (length knots - 2 * p - 1) knots p true false
+  (map (fun i : nat => spadd K x0 (spmul K (sp_ofnat F K i) dx)) (seq 0 (length knots - 2 * p - 1))) =
+  SpOk A ->
+  ip_inverse_ok F K (length knots - 2 * p - 1) A Ainv = true ->
+  (forall j : nat,
+  (j < length knots - 2 * p - 1)%nat ->
+  nth j (ip_quad_rhs F K (length knots - 2 * p - 1) p true Il) (sp0 K) = dx') ->
+  forall i : nat, (i < length knots - 2 * p - 1)%nat -> nth i w (sp0 K) = dx'.
+Proof. exact (@ip_weights_equal_uniform). Qed.
+Print Assumptions c09_weights_equal_uniform.
+
+(** continuity across a simple knot: at x = t_{s+1} the Cox - de Boor triangles above the indicators of the spans s and s+1 agree from degree 1 on *)
+Theorem c09_Nd_cont :
+  forall (F : Type) (K : sp_ops F),
+  sp_laws K ->
+  forall (knots : list F) (s : nat),
+  sp_lt K (sp_kn F K knots s) (sp_kn F K knots (S s)) ->
+  sp_lt K (sp_kn F K knots (S s)) (sp_kn F K knots (S (S s))) ->
+  forall k : nat,
+  (1 <= k)%nat ->
+  forall i : nat,
+  Ng F (sp0 K) (spadd K) (spmul K) (spsub K) (spdiv K) (sp_kn F K knots) (sp_kn F K knots (S s))
+  (speqb K) (delta F (sp0 K) (sp1 K) s) k i =
+  Ng F (sp0 K) (spadd K) (spmul K) (spsub K) (spdiv K) (sp_kn F K knots) (sp_kn F K knots (S s))
+  (speqb K) (delta F (sp0 K) (sp1 K) (S s)) k i.
+Proof. exact (@ip_Nd_cont). Qed.
+Print Assumptions c09_Nd_cont.
+
+(** translation invariance of A2.2 at the left end of a span: the last right[] value does not matter there *)
+Theorem c09_A22_ext_left_end :
+  forall (F : Type) (K : sp_ops F),
+  sp_laws K ->
+  forall (knots knots' : list F) (d : nat) (x x' : F) (s s' : nat),
+  (forall i : nat,
+  (i < d)%nat ->
+  spsub K (sp_kn F K knots (s + 1 + i)) x = spsub K (sp_kn F K knots' (s' + 1 + i)) x' /\
+  spsub K x (sp_kn F K knots (s - i)) = spsub K x' (sp_kn F K knots' (s' - i))) ->
+  spsub K x (sp_kn F K knots (s - d)) = spsub K x' (sp_kn F K knots' (s' - d)) ->
+  spsub K x (sp_kn F K knots s) = sp0 K ->
+  spsub K x' (sp_kn F K knots' s') = sp0 K ->
+  spsub K (sp_kn F K knots (s + 1 + d)) x <> sp0 K ->
+  spsub K (sp_kn F K knots' (s' + 1 + d)) x' <> sp0 K ->
+  sp_A22 F K knots (S d) x s = sp_A22 F K knots' (S d) x' s'.
+Proof. exact (@ip_A22_ext_left_end). Qed.
+Print Assumptions c09_A22_ext_left_end.
+
+(** exactly uniform periodic knots, any degree d >= 1 (repaired code): every folded integral integrals[j] + integrals[n+j] (j < d) is dx *)
+Theorem c09_unif_folded :
+  forall (F : Type) (K : sp_ops F),
+  sp_laws K ->
+  forall (knots : list F) (d : nat) (t0 dx : F),
+  sp_lt K (sp0 K) dx ->
+  (1 <= d)%nat ->
+  (2 * d + 1 < length knots)%nat ->
+  (forall j : nat,
+  (j < length knots)%nat -> sp_kn F K knots j = spadd K t0 (spmul K (sp_ofnat F K j) dx)) ->
+  (d <= length knots - 2 * d - 1)%nat ->
+  forall Il : list F,
+  ip_integrals F K knots d true false = SpOk Il ->
+  forall j : nat,
+  (j < length knots - 2 * d - 1)%nat ->
+  nth j (ip_quad_rhs F K (length knots - 2 * d - 1) d true Il) (sp0 K) = dx.
+Proof. exact (@ip_unif_folded). Qed.
+Print Assumptions c09_unif_folded.
+
+(** uniform_periodic_equal, general path, EVERY degree: knots t_j = t_0 + j dx, points x_i = x_0 + i dx with x_0 in the first cell: every quadrature weight is dx; the only per-instance hypothesis is the checked inverse of the collocation matrix *)
+Theorem c09_weights_equal_uniform_periodic :
+  forall (F : Type) (K : sp_ops F),
+  sp_laws K ->
+  forall (knots : list F) (d : nat) (t0 dx : F),
+  sp_lt K (sp0 K) dx ->
+  (1 <= d)%nat ->
+  (2 * d + 1 < length knots)%nat ->
+  (forall j : nat,
+  (j < length knots)%nat -> sp_kn F K knots j = spadd K t0 (spmul K (sp_ofnat F K j) dx)) ->
+  (d <= length knots - 2 * d - 1)%nat ->
+  forall (x0 : F) (w : list F) (A Ainv : list (list F)),
+  let xs :=
+  map (fun i : nat => spadd K x0 (spmul K (sp_ofnat F K i) dx)) (seq 0 (length knots - 2 * d - 1))
+  in
+  sp_le K (sp_kn F K knots d) x0 ->
+  ~ sp_le K (sp_kn F K knots (S d)) x0 ->
+  ip_quadrature F K knots d true false xs = SpOk w ->
+  ip_colloc F K (length knots - 2 * d - 1) knots d true false xs = SpOk A ->
+  ip_inverse_ok F K (length knots - 2 * d - 1) A Ainv = true ->
+  forall i : nat, (i < length knots - 2 * d - 1)%nat -> nth i w (sp0 K) = dx.
+Proof. exact (@ip_weights_equal_uniform_periodic). Qed.
+Print Assumptions c09_weights_equal_uniform_periodic.
 
 (** uniform periodic spaces, certificate form: columns of C sum to one, folded integrals all dx, checked inverse  ==>  every weight is dx *)
 Theorem c09_weights_equal_cert :
